@@ -12,8 +12,8 @@ if os.path.exists(p):
     for l in open(p):
         f = l.rstrip('\n').split('\t')
         res[f[0]] = f
-print('| seeded change | what it does (from the author\'s notes) | needs to manifest | quick check of its property |')
-print('|---|---|---|---|')
+print('| seeded change | what it does (title of the author\'s notes; conditions in seeded/<id>/notes.md) | quick check of its property |')
+print('|---|---|---|')
 for d in sorted(glob.glob(os.path.join(HERE, 'seeded', 'C*'))):
     mid = os.path.basename(d)
     try:
@@ -38,4 +38,5 @@ for d in sorted(glob.glob(os.path.join(HERE, 'seeded', 'C*'))):
     if r:
         n = int(r[2].split('=')[1])
         verdict = ('**caught**: ' + ', '.join('`%s`' % k for k in r[4].split()[:2])) if n else '**missed**'
-    print('| %s | %s | %s | %s |' % (mid, first[:160].replace('|', '/'), need.replace('|', '/'), verdict))
+    first = re.sub(r'^(C\d\d|A\d\d)\s*/\s*(round \d /\s*)?(mutant \d|m\d)\s*[-\u2013\u2014:]+\s*', '', first)
+    print('| %s | %s | %s |' % (mid, first[:170].replace('|', '/'), verdict))
